@@ -31,7 +31,7 @@ ASSUMPTIONS = [
     'required is that later operations behave as on a fresh object',
     'private dispatcher state is recorded in witnesses as a diagnosis only',
 ]
-REQUIRED = {'faulted_runs': 2000, 'faults_fired': 1500, 'probe_deliveries': 5000, 'in_batch_runs': 500,
+REQUIRED = {'cascading_watcher_programs': 50, 'faulted_runs': 2000, 'faults_fired': 1500, 'probe_deliveries': 5000, 'in_batch_runs': 500,
             'fault_watcher': 300, 'fault_updatekey': 300, 'fault_body': 300}
 
 _st = {}
@@ -137,17 +137,33 @@ class Exec:
             self.o.param.watch(self.make_cb(wid), ws['names'], onlychanged=ws['onlychanged'], queued=ws['queued'],
                                precedence=ws['precedence'])
         self.window = None       # names assigned/triggered in the current top-level op
+        self.cascade_n = 0
         self.late = []
         self.depth_nesting = 0
 
     def make_cb(self, wid):
+        ws = self.wspecs[wid]
+
         def cb(*events):
             self.invocations += 1
+            mine = self.invocations
             self.log.append((wid, [(e.name, e.new, e.type) for e in events]))
+            fault = None
             for f in self.faults:
-                if f[0] == 'watcher' and f[1] == self.invocations and f not in self.fired:
-                    self.fired.append(f)
-                    raise Boom(f'watcher invocation {self.invocations}')
+                if f[0] == 'watcher' and f[1] == mine and f not in self.fired:
+                    fault = f
+            if fault is not None and not ws.get('raise_after_actions'):
+                self.fired.append(fault)
+                raise Boom(f'watcher invocation {mine}')
+            # scripted cascade: assign to parameters later in the (acyclic) order
+            for target in ws.get('sets', ()):
+                self.cascade_n += 1
+                v = (5 + self.cascade_n) % 10 if target == 'n' else ('c', wid, self.cascade_n)
+                self.touch(target, v)
+                setattr(self.o, target, v)
+            if fault is not None:
+                self.fired.append(fault)
+                raise Boom(f'watcher invocation {mine} (after its own assignments)')
         return cb
 
     def fault_for(self, kind, path):
@@ -327,8 +343,15 @@ def run_case(idx, rng, P, rep):
     nw = rng.randint(1, 4)
     wspecs = []
     for _ in range(nw):
-        wspecs.append(dict(names=rng.sample(NAMES + ['n', 'e'], rng.randint(1, 3)), onlychanged=rng.random() < 0.6,
-                           queued=rng.random() < 0.25, precedence=rng.choice([0, 0, 1, 2])))
+        names = rng.sample(NAMES + ['n', 'e'], rng.randint(1, 3))
+        ws = dict(names=names, onlychanged=rng.random() < 0.6, queued=rng.random() < 0.25, precedence=rng.choice([0, 0, 1, 2]))
+        order = ['e', 'a', 'b', 'c', 'n']
+        later = order[max(order.index(x) for x in names) + 1:]
+        if later and rng.random() < 0.4:
+            # a callback that itself assigns (acyclic by construction: only to parameters later in the order)
+            ws['sets'] = rng.sample(later, rng.randint(1, min(2, len(later))))
+            ws['raise_after_actions'] = rng.random() < 0.5
+        wspecs.append(ws)
     prog = gen_prog(rng)
     # ---- fault-free run: count the sites
     ex0 = Exec(param, cls, wspecs)
@@ -342,6 +365,8 @@ def run_case(idx, rng, P, rep):
         else:
             sites.append(s)
     rep.count('programs')
+    if any(w.get('sets') for w in wspecs):
+        rep.count('cascading_watcher_programs')
     rep.count('fault_sites', len(sites))
     desc = dict(watchers=wspecs, program=repr(prog)[:1500])
     if ex0.late:
@@ -396,6 +421,7 @@ def run_case(idx, rng, P, rep):
             #      (checked behaviourally by the probe: a stale event would show up in its first steps)
             values = {n: getattr(ex.o, n) for n in NAMES + ['n', 'k']}
             twin = Exec(param, cls, wspecs, values=values)
+            twin.cascade_n = ex.cascade_n       # scripted callbacks produce the same values on both objects
             t_f = probe(ex, param)
             # the twin's probe uses the same probe values; logs are compared from the probe start only
             t_t = probe(twin, param)
